@@ -197,6 +197,7 @@ func cmdCheck(args []string) int {
 		for _, ob := range r.Obs {
 			if ob.Status == "unknown" && ob.Kind != "cover" && rescued < 10 {
 				rescued++
+				ob.Stage = "rescue"
 				retry(r, ob, solveOpts{timeoutMs: 3 * timeout, workers: 1, keepDir: filepath.Join(verifDir(), "out", "failed", prop)})
 			}
 		}
@@ -224,6 +225,7 @@ func report(run *propRun, w *World, db *ContractDB) int {
 	notes := map[string]bool{}
 	engineErr := false
 	var unclaimed []string
+	lateDecided := []string{} // obligations not decided by the primary solver in the function's script (stability watch list)
 	seenKnown := map[string]bool{}
 	var violLines []string
 	handle := func(ob *Obligation, script func() string) {
@@ -232,6 +234,9 @@ func report(run *propRun, w *World, db *ContractDB) int {
 			nDis++
 			perSolver[ob.Solver]++
 			solverSecs += ob.Secs
+			if ob.Stage != "" && ob.Kind != "cover" {
+				lateDecided = append(lateDecided, fmt.Sprintf("%s [%s, %s, %.1fs]", ob.Name, ob.Stage, ob.Solver, ob.Secs))
+			}
 			if len(samples) < 6 && ob.Kind != "cover" {
 				samples = append(samples, map[string]interface{}{"obligation": ob.Name, "kind": ob.Kind, "pos": ob.Pos,
 					"status": ob.Status, "solver": ob.Solver, "secs": round3(ob.Secs), "goal_bytes": len(ob.Goal)})
@@ -335,6 +340,7 @@ func report(run *propRun, w *World, db *ContractDB) int {
 			"samples":                  samples,
 			"engine_notes":             noteList,
 			"unproved_not_claimed":     unclaimed,
+			"decided_only_standalone":  lateDecided,
 			"explanation":              "obligations generated by govc from the go/ssa form of /repo's working tree (build tag verif) for the functions under contract; see DESIGN.md",
 		},
 		"assumptions": assumptions,
